@@ -147,10 +147,13 @@ func render(v ssa.Value, d int) string {
 	case *ssa.Builtin:
 		return v.Name()
 	case *ssa.Alloc:
-		if v.Comment != "" && v.Comment != "complit" && !strings.HasPrefix(v.Comment, "new") && !strings.Contains(v.Comment, ".") {
+		if v.Comment != "" && v.Comment != "complit" && v.Comment != "makeslice" && v.Comment != "varargs" && !strings.HasPrefix(v.Comment, "new") && !strings.Contains(v.Comment, ".") {
 			return "&" + v.Comment
 		}
-		return "&new:" + typeShortNoPtr(v.Type())
+		if v.Comment == "makeslice" || v.Comment == "varargs" {
+			return "&" + v.Comment + ordinal(v)
+		}
+		return "&new:" + typeShortNoPtr(v.Type()) + ordinal(v)
 	case *ssa.FieldAddr:
 		if al, ok := v.X.(*ssa.Alloc); ok {
 			if sv := singleStore(al, v); sv != nil {
@@ -262,7 +265,7 @@ func render(v ssa.Value, d int) string {
 		}
 		return s + "]"
 	case *ssa.MakeSlice:
-		return "make(" + typeShort(v.Type()) + "," + render(v.Len, d+1) + ")"
+		return "make" + ordinal(v) + "(" + typeShort(v.Type()) + "," + render(v.Len, d+1) + ")"
 	case *ssa.MakeMap:
 		if v.Reserve != nil {
 			return "make(" + typeShort(v.Type()) + "," + render(v.Reserve, d+1) + ")"
@@ -511,4 +514,48 @@ func structLit(al *ssa.Alloc, use ssa.Instruction, d int) string {
 		}
 	}
 	return typeShortNoPtr(al.Type()) + "{" + strings.Join(parts, ",") + "}"
+}
+
+// ordinal distinguishes allocation sites of one function that would otherwise
+// render identically (two `make([]byte, 4)` buffers are different values):
+// the first site of a (kind, type) group has no suffix, the k-th gets 'k.
+var ordinals = map[*ssa.Function]map[ssa.Value]int{}
+
+func ordinal(v ssa.Value) string {
+	in, ok := v.(ssa.Instruction)
+	if !ok || in.Parent() == nil {
+		return ""
+	}
+	fn := in.Parent()
+	m := ordinals[fn]
+	if m == nil {
+		m = map[ssa.Value]int{}
+		count := map[string]int{}
+		for _, b := range fn.Blocks {
+			for _, x := range b.Instrs {
+				var key string
+				switch y := x.(type) {
+				case *ssa.Alloc:
+					switch {
+					case y.Comment == "makeslice" || y.Comment == "varargs":
+						key = y.Comment + ":" + y.Type().String()
+					case y.Comment == "complit" || strings.HasPrefix(y.Comment, "new") || y.Comment == "" || strings.Contains(y.Comment, "."):
+						key = "new:" + y.Type().String()
+					}
+				case *ssa.MakeSlice:
+					key = "make:" + y.Type().String()
+				}
+				if key == "" {
+					continue
+				}
+				count[key]++
+				m[x.(ssa.Value)] = count[key]
+			}
+		}
+		ordinals[fn] = m
+	}
+	if k := m[v]; k > 1 {
+		return fmt.Sprintf("'%d", k)
+	}
+	return ""
 }
